@@ -146,7 +146,7 @@ def main(argv=None):
             parser.read('pytest.ini')
             try:
                 options = parser.get('pytest', 'xdoctest_options')
-            except configparser.NoOptionError:
+            except (configparser.NoOptionError, configparser.NoSectionError):
                 pass
         ns['options'] = options
 
